@@ -626,7 +626,10 @@ def parseTok (tok : String) : Tok :=
     else if name == "genlocked" then .genlocked
     else if name == "newrolocked" then .newrolocked
     else if name == "genrolocked" then .genrolocked
-    else if name == "failfrom" then .failfrom ((parseInt arg).getD (-1))
+    else if name == "failfrom" then
+      -- `failfrom:<1000·errno + k>` selects the errno the shim reports; the refusal itself is the same
+      let k := (parseInt arg).getD (-1)
+      .failfrom (if k ≥ 1000 then k % 1000 else k)
     else if name == "wprobe" then .wprobe nat
     else if name == "rprobe" then .rprobe nat
     else if name == "gprobe" then .gprobe (arg == "fore")
